@@ -25,6 +25,12 @@ CHECKS = {
   note="Trusted: TLC, vlib bridge, rendering of an abstract expression as an anchored quoted alternation (Go's regexp engine itself is not modelled). Empty-stack samples under hide/show are unspecified. Bounds: 2 samples, depth<=3, universe of 7 names.",
   technique="TLA+ spec + TLC exhaustive case enumeration replayed on the real filters (API and driver)",
   design_ref="DESIGN.md 5/C06"),
+ "C11": dict(
+  category="model_checking",
+  text="Prune.tla: the rule is stated on the frame sequence of a sample (first match after a non-matching frame goes with its leaf side; prune_from keeps the leaf-most match) with Simplify as a table; TLC checks the location-granular in-place mechanism (location pass: root-most matching line, whole vs beneath, line trimming; sample pass with the first-user-frame guard) against it, plus root-side-untouched, never-empties, counts/values/labels kept and no-expression-is-identity, and classifies the inputs the mechanism cannot follow. Every enumerated case is replayed on the real RemoveUninteresting (bare alternation that must be anchored as a whole), PruneFrom, with shared and duplicated locations, and through `pprof -proto` / `-prune_from`.",
+  note="Trusted: TLC, vlib bridge. Three known findings (input classes computed by the specification) are downgraded; every other class is reported. Bounds: 2 samples, depth<=3, 3-line locations, names {a,b,u,.a,a(int),ab,xb}.",
+  technique="TLA+ spec + TLC exhaustive case enumeration replayed on real Prune/PruneFrom/RemoveUninteresting and the driver",
+  design_ref="DESIGN.md 5/C11"),
 }
 
 NOT_YET = "check not built yet in this session (planned in DESIGN.md section 5)"
